@@ -35,6 +35,8 @@ def axis_feature(a):
     nz = [i for i in range(3) if a[i] != 0.0]
     if len(nz) == 1:
         return ('+' if a[nz[0]] > 0 else '-') + 'xyz'[nz[0]]
+    if len(nz) == 2:
+        return 'xyz'[({0, 1, 2} - set(nz)).pop()] + '=0'        # exactly in a coordinate plane (single-axis tilt)
     return 'generic'
 
 
